@@ -2,11 +2,11 @@
 EXTENDS MC_Docs
 \* documents: every leaf from a small value set; "b" may be absent
 mcVals == {"1", "\"s\"", "true"}
-mcDocs == {d \in [Paths -> mcVals \cup {Absent, "null", "\"a much longer string value\"", "2.5"}] :
+mcDocs == {d \in [Paths -> mcVals \cup {Absent, "null", "\"a much longer string value\"", "2.5", "\"t\""}] :
              /\ d["a"] \in {"1", "\"s\"", "\"a much longer string value\""}
              /\ d["b"] \in {"true", Absent, "2.5"}
              /\ d["n.x"] \in {"1", "null"}
-             /\ d["n.xy"] \in {"\"s\""}
+             /\ d["n.xy"] \in {"\"s\"", "\"t\""}
              /\ d["l.0"] \in {"1", "\"s\""}
              /\ d["l.1"] \in {"true"}}
 M(m, name, p, ph, eomp, t, err) == [m |-> m, name |-> name, p |-> p, ph |-> ph, eomp |-> eomp, t |-> t, err |-> err]
